@@ -150,6 +150,7 @@ SYNTAX_MESSAGES = {
 }
 MAJOR_PREFIX = 'unexpected major revision number: '
 CHARSET_RE = b'charset=([^ \t\n]+)'
+ANCHORS = {'__init__', '_parse', '_read_ints', '_parse_entry', 'parse'}
 CAUGHT = {'IndexError': 'Mo.Py.isIndexError', 'UnicodeError': 'Mo.Py.isUnicodeError'}
 IGNORED_ENTRY_ATTRS = {'comment', 'occurrences', 'flags', 'translated', 'previous_msgctxt', 'previous_msgid', 'previous_msgid_plural'}
 KWARG_FIELDS = {'msgid': TEXT, 'msgctxt': TEXT, 'msgstr': TEXT, 'msgid_plural': TEXT, 'msgstr_plural': LIST(TEXT)}
@@ -1258,6 +1259,11 @@ def generate(repo):
             text = text.replace('(self : Self) (path : Unit)', '(self : Self) (fileContents : Mo.Bytes) (path : Unit)', 1)
         out.append(text)
     out.append('end Parser\n')
+    helpers = [n for n in unit.order if n not in ANCHORS]
+    out.append('/-- proof support: unfold the methods other than ' + ', '.join(sorted(ANCHORS)) + ' (the methods the equality\n'
+               '    lemmas of Lemmas/MoGenerated.lean are stated about), i.e. helpers introduced by a refactoring of the source -/\n'
+               'macro "mo_unfold_helpers" : tactic => `(tactic| ' +
+               ('try simp only [' + ', '.join('Parser.' + lname(n) for n in helpers) + ']' if helpers else 'skip') + ')\n')
     out.append('/-- `Parser(path, encoding=encoding).parse()` for a file whose contents are `fileContents`\n'
                '    (`check_for_duplicates`, `klass` at their defaults, as at the call sites in lib/check) -/\n'
                'def parse (db : Mo.CodecDB) (encoding : Option Mo.Bytes) (fileContents : Mo.Bytes) : Except Mo.Err Mo.MoFile :=\n'
@@ -1275,7 +1281,10 @@ def main():
         text = generate(repo)
     except Untranslatable as exc:
         msg = str(exc).replace('"', "'").replace('\\', '/')
-        text = HEADER + f'-- UNTRANSLATABLE: {msg}\n#eval (throwError "untranslatable: {msg}" : Lean.Elab.Command.CommandElabM Unit)\nend I18n.Generated.MoParser\n'
+        text = HEADER + (f'-- UNTRANSLATABLE: {msg}\n'
+                         '/-- deliberately does not compile: the current lib/moparser.py is outside the translator\'s subset (see above) -/\n'
+                         'def untranslatable : Unit := the_current_source_of_lib_moparser_py_is_untranslatable\n'
+                         'end I18n.Generated.MoParser\n')
         print(f'untranslatable: {exc}', file=sys.stderr)
         old = open(dest, encoding='utf-8').read() if os.path.exists(dest) else None
         if old != text:
